@@ -1,5 +1,5 @@
 (* Properties/C05.v -- defs write at the call site; buffering, capture and calls with content *)
-From MakoV Require Import Lib.Str Model.Core Proofs.CoreProofs.
+From MakoV Require Import Lib.Str Model.Core Proofs.CoreProofs Proofs.CoreMore.
 
 (* for every set of defs, every construct (calls by name, captures, calls with content nested in any
    way, caller.body() any number of times, try blocks), every state inside a render function and every
@@ -32,6 +32,15 @@ Theorem C05_capture_leaves_output : forall defs f me d l b r cs,
     ({| bufs := (b ++ concat l) :: r; callers := cs; nextcaller := None |}, ONormal, []).
 Proof. exact capture_leaves_output. Qed.
 Print Assumptions C05_capture_leaves_output.
+
+(* a call with content whose callee asks for the body twice: the body's text appears twice at the point of
+   the call, between what the callee writes before and after, and caller is restored *)
+Theorem C05_body_invoked_twice : forall defs f me d a z l b r cs,
+  nth_error defs d = Some {| d_body := [NText a; NCallerBody; NCallerBody; NText z]; d_buffered := false; d_filtered := false |} ->
+  exec defs (S (S (S f))) (S (length r)) me (NCallContent d (texts l)) {| bufs := b :: r; callers := cs; nextcaller := None |} =
+    ({| bufs := (b ++ a ++ concat l ++ concat l ++ z) :: r; callers := cs; nextcaller := None |}, ONormal, []).
+Proof. exact body_invoked_twice. Qed.
+Print Assumptions C05_body_invoked_twice.
 
 (* non-vacuity: a call with content whose callee is filtered and asks for the body twice; the body
    calls a def and probes *)
